@@ -52,6 +52,9 @@ type replication struct {
 }
 
 func (r *replication) runLoop(req *appendReq) {
+	if verifReplPark(r, req) {
+		return
+	}
 	if trace {
 		println(r, "repl.start")
 	}
